@@ -660,6 +660,9 @@ Definition may_replace (o : sop) (p : path) : bool :=
 (** * (d) the HDF5 recorder                                                                       *)
 (* ============================================================================================ *)
 
+(* A block is a VALUE: the contents of what record() was given at the time of the call (the real
+   code takes a copy; the harness lets the callers overwrite their arrays afterwards and compares the
+   file with the at-call-time contents). *)
 Definition block := list Z.
 Definition amap := list (N * Z).             (* attribute name -> value; first binding wins *)
 Fixpoint aget (m : amap) (a : N) : option Z :=
